@@ -43,6 +43,115 @@ def run(ctx):
     ctx.guard(r6_bsearch)
     ctx.guard(r7_levels)
     ctx.guard(r8_mirror)
+    ctx.guard(r9_state_has_writer)
+
+
+# -- R9: every piece of state a codec / format method reads has a writer -----
+
+def _ctor_chain(prog, ci, depth=0):
+    """__init__ functions that run when `ci` is instantiated: its own and the
+    base initialisers it calls explicitly (or inherits)."""
+    if depth > 5:
+        return []
+    out = []
+    init = ci.methods.get("__init__")
+    bases = [bc for b in ci.bases for bc in prog.class_by_name.get(b, [])]
+    if init is None or init.cls is not ci:
+        for bc in bases:
+            out += _ctor_chain(prog, bc, depth + 1)
+        return out
+    out.append(init)
+    for n in init.own_nodes():
+        if isinstance(n, ast.Call) and isinstance(n.func, ast.Attribute) and \
+                n.func.attr == "__init__":
+            base = text(n.func.value)
+            for bc in bases:
+                if base.startswith("super(") or base == bc.name:
+                    out += _ctor_chain(prog, bc, depth + 1)
+    return out
+
+
+def _all_bases(prog, ci, depth=0):
+    out = []
+    if depth > 5:
+        return out
+    for b in ci.bases:
+        for bc in prog.class_by_name.get(b, []):
+            out.append(bc)
+            out += _all_bases(prog, bc, depth + 1)
+    return out
+
+
+def r9_state_has_writer(ctx):
+    """The encoders keep their arrays, occupancies, handles and configuration
+    in attributes.  An attribute read through `self` in a method of the codec
+    or of a registered format must be written somewhere that can have run
+    before: in the constructor chain of the class (own __init__ and the base
+    initialisers it actually calls), in another method of the class or its
+    bases, or by a store through another name anywhere in the codec package
+    (`fiber.nnz = ...`).  A read without any writer is an AttributeError on
+    first use -- a dropped `self.x = x` in a constructor, or a constructor
+    that no longer chains to CompressionFormat.__init__."""
+    prog = ctx.prog
+    ext = set()
+    for rel, m in prog.modules.items():
+        if rel.startswith("codec/"):
+            for n in ast.walk(m.tree):
+                if isinstance(n, ast.Attribute) and isinstance(n.ctx, ast.Store) and \
+                        text(n.value) != "self":
+                    ext.add(n.attr)
+    names = ["Codec", "CompressionFormat", "TwoHandle"] + list(FORMATS.values())
+    n_ = 0
+    for cname in names:
+        cis = [ci for k, ci in prog.classes.items()
+               if ci.name == cname and k.startswith("codec/")]
+        if not cis:
+            raise AnalysisError("C20.R9: class %s vanished" % cname)
+        ci = cis[0]
+        ctx.consulted.add(ci.module.rel)
+        chain = _ctor_chain(prog, ci)
+        family = [ci] + _all_bases(prog, ci)
+        known = set()
+        for k in family:
+            known |= set(k.methods) | set(k.class_attrs)
+        written = set()
+        for f in chain:
+            for n in f.own_nodes():
+                if isinstance(n, ast.Attribute) and isinstance(n.ctx, ast.Store) and \
+                        text(n.value) == "self":
+                    written.add(n.attr)
+        for k in family:
+            for mn, f in k.methods.items():
+                if mn == "__init__" or f.node is None:
+                    continue
+                for n in f.own_nodes():
+                    if isinstance(n, ast.Attribute) and isinstance(n.ctx, ast.Store) and \
+                            text(n.value) == "self":
+                        written.add(n.attr)
+        for mn, f in sorted(ci.methods.items()):
+            if f.cls is not ci or f.node is None or not f.params or f.params[0] != "self":
+                continue
+            seen = set()
+            for n in f.own_nodes():
+                if isinstance(n, ast.Attribute) and isinstance(n.ctx, ast.Load) and \
+                        text(n.value) == "self" and n.attr not in known and \
+                        n.attr not in seen:
+                    seen.add(n.attr)
+                    n_ += 1
+                    if n.attr in written or n.attr in ext:
+                        ctx.ok("C20.R9", f, n, "state read has a writer",
+                               text_="%s.%s reads self.%s" % (cname, mn, n.attr))
+                    else:
+                        ctx.bad("C20.R9", f, n,
+                                "%s.%s reads self.%s, which nothing that can run "
+                                "before writes: not the constructor chain of %s "
+                                "(%s), no other method, no store through another "
+                                "name -- AttributeError on first use"
+                                % (cname, mn, n.attr, cname,
+                                   ", ".join(c.key.split(":")[-1] for c in chain) or
+                                   "no __init__"),
+                                text_="%s.%s reads self.%s" % (cname, mn, n.attr))
+    ctx.floor("C20.R9", n_, 60, "attribute reads of the codec and format classes")
 
 
 def _cls(ctx, name):
